@@ -16,9 +16,57 @@ type ModSet struct {
 	all      bool // anything at all (unknown code)
 	external bool // anything an out-of-package function can reach: every component except unexported fields of the module's own types
 	comps    map[string]bool
+	prm      map[string]map[int]bool // field component -> indices of the pointer parameters whose object (only) is written
+	freshC   map[string]bool         // components written only in objects allocated by the activation itself
 }
 
-func newModSet() *ModSet { return &ModSet{comps: map[string]bool{}} }
+func newModSet() *ModSet { return &ModSet{comps: map[string]bool{}, prm: map[string]map[int]bool{}} }
+
+func (m *ModSet) addPrm(comp string, i int) bool {
+	if m.comps[comp] {
+		return false
+	}
+	if m.prm[comp] == nil {
+		m.prm[comp] = map[int]bool{}
+	}
+	if m.prm[comp][i] {
+		return false
+	}
+	m.prm[comp][i] = true
+	return true
+}
+
+func (m *ModSet) fresh(comp string) {
+	if m.freshC == nil {
+		m.freshC = map[string]bool{}
+	}
+	m.freshC[comp] = true
+}
+
+func (m *ModSet) addComp(comp string) bool {
+	if m.comps[comp] {
+		return false
+	}
+	m.comps[comp] = true
+	delete(m.prm, comp)
+	return true
+}
+
+// flat: every component written, whatever the root (used for loop heads).
+func (m *ModSet) flat() *ModSet {
+	o := newModSet()
+	o.all, o.external = m.all, m.external
+	for k := range m.comps {
+		o.comps[k] = true
+	}
+	for k := range m.prm {
+		o.comps[k] = true
+	}
+	for k := range m.freshC {
+		o.comps[k] = true
+	}
+	return o
+}
 
 func (m *ModSet) union(o *ModSet) bool {
 	ch := false
@@ -31,9 +79,15 @@ func (m *ModSet) union(o *ModSet) bool {
 		ch = true
 	}
 	for k := range o.comps {
-		if !m.comps[k] {
-			m.comps[k] = true
+		if m.addComp(k) {
 			ch = true
+		}
+	}
+	for k, is := range o.prm {
+		for i := range is {
+			if m.addPrm(k, i) {
+				ch = true
+			}
 		}
 	}
 	return ch
@@ -52,7 +106,7 @@ func (m *ModSet) covers(key string) bool {
 	if m.all {
 		return true
 	}
-	if m.comps[key] {
+	if m.comps[key] || len(m.prm[key]) > 0 {
 		return true
 	}
 	if m.external && !isPrivateComp(key) {
@@ -137,47 +191,6 @@ func (g *Gen) allFieldComps(t types.Type, out map[string]bool) {
 		}
 		out[g.compField(t, f.Name())] = true
 	}
-}
-
-// compsOfStoreTarget: components a store of a value of type t through addr may touch.
-func (g *Gen) compsOfStoreTarget(addr ssa.Value, t types.Type, out map[string]bool) {
-	switch a := addr.(type) {
-	case *ssa.Alloc:
-		if !a.Heap {
-			return // never visible outside this activation
-		}
-	case *ssa.FieldAddr:
-		pt := a.X.Type().Underlying().(*types.Pointer).Elem()
-		st := pt.Underlying().(*types.Struct)
-		f := st.Field(a.Field)
-		if _, isS := types.Unalias(f.Type()).Underlying().(*types.Struct); isS {
-			g.allFieldComps(f.Type(), out)
-			return
-		}
-		// a field of a stack-allocated struct is invisible as well
-		if base, ok := a.X.(*ssa.Alloc); ok && !base.Heap {
-			return
-		}
-		out[g.compField(pt, f.Name())] = true
-		return
-	case *ssa.IndexAddr:
-		var et types.Type
-		switch xt := a.X.Type().Underlying().(type) {
-		case *types.Slice:
-			et = xt.Elem()
-		case *types.Pointer:
-			et = xt.Elem().Underlying().(*types.Array).Elem()
-		}
-		if et != nil {
-			out[g.compElem(et)] = true
-		}
-		return
-	}
-	if _, isS := types.Unalias(t).Underlying().(*types.Struct); isS {
-		g.allFieldComps(t, out)
-		return
-	}
-	out[g.compCell(t)] = true
 }
 
 // external library call models: which components does a known function write?
@@ -294,6 +307,11 @@ func (g *Gen) computeModSets() {
 		}
 	}
 	g.dynTargets = bySig
+	var all []*ssa.Function
+	for _, name := range g.fnames {
+		all = append(all, g.funcs[name])
+	}
+	computeReturnsFresh(all)
 	for _, name := range g.fnames {
 		g.modsets[g.funcs[name]] = newModSet()
 	}
@@ -317,23 +335,183 @@ func sigKey(s *types.Signature) string {
 	return types.TypeString(types.NewSignatureType(nil, nil, nil, s.Params(), s.Results(), s.Variadic()), func(p *types.Package) string { return p.Path() })
 }
 
+// returnsFresh: functions whose first result is always an object they allocated (or nil).
+var returnsFresh = map[*ssa.Function]bool{}
+
+func computeReturnsFresh(fns []*ssa.Function) {
+	for _, fn := range fns {
+		ok, any := true, false
+		for _, b := range fn.Blocks {
+			for _, ins := range b.Instrs {
+				r, isRet := ins.(*ssa.Return)
+				if !isRet || len(r.Results) == 0 {
+					continue
+				}
+				any = true
+				switch v := r.Results[0].(type) {
+				case *ssa.Alloc:
+				case *ssa.Const:
+					if v.Value != nil {
+						ok = false
+					}
+				default:
+					ok = false
+				}
+			}
+		}
+		if ok && any {
+			if _, isPtr := fn.Signature.Results().At(0).Type().Underlying().(*types.Pointer); isPtr {
+				returnsFresh[fn] = true
+			}
+		}
+	}
+}
+
+// rootOf classifies the object a pointer value points to: a parameter's object, an object allocated by this activation, or anything.
+const (
+	rootAny   = -1
+	rootFresh = -2
+)
+
+func rootOf(v ssa.Value) int {
+	switch x := v.(type) {
+	case *ssa.Parameter:
+		for i, p := range x.Parent().Params {
+			if p == x {
+				return i
+			}
+		}
+	case *ssa.Alloc:
+		return rootFresh
+	case *ssa.ChangeType:
+		return rootOf(x.X)
+	case *ssa.Call:
+		if f := x.Common().StaticCallee(); f != nil && returnsFresh[f] {
+			return rootFresh
+		}
+	case *ssa.Extract:
+		if c, ok := x.Tuple.(*ssa.Call); ok && x.Index == 0 {
+			if f := c.Common().StaticCallee(); f != nil && returnsFresh[f] {
+				return rootFresh
+			}
+		}
+	}
+	return rootAny
+}
+
+// storeEffects: the effect of a store of a value of type t through addr.
+// forLoop: include objects allocated by this activation (they are invisible to callers but change inside a loop).
+func (g *Gen) storeEffects(addr ssa.Value, t types.Type, add *ModSet, forLoop bool) {
+	switch a := addr.(type) {
+	case *ssa.Alloc:
+		// an object allocated by this activation is new to every caller
+		if !forLoop {
+			return
+		}
+	case *ssa.FieldAddr:
+		pt := a.X.Type().Underlying().(*types.Pointer).Elem()
+		st := pt.Underlying().(*types.Struct)
+		f := st.Field(a.Field)
+		keys := map[string]bool{}
+		if _, isS := types.Unalias(f.Type()).Underlying().(*types.Struct); isS {
+			g.allFieldComps(f.Type(), keys)
+			for k := range keys {
+				add.addComp(k)
+			}
+			return
+		}
+		key := g.compField(pt, f.Name())
+		switch r := rootOf(a.X); {
+		case r >= 0:
+			add.addPrm(key, r)
+		case r == rootFresh && !forLoop:
+			// a field of an object allocated here: invisible to the caller
+		default:
+			add.addComp(key)
+		}
+		return
+	case *ssa.IndexAddr:
+		var et types.Type
+		switch xt := a.X.Type().Underlying().(type) {
+		case *types.Slice:
+			et = xt.Elem()
+		case *types.Pointer:
+			et = xt.Elem().Underlying().(*types.Array).Elem()
+			if _, ok := a.X.(*ssa.Alloc); ok && !forLoop {
+				return
+			}
+		}
+		if et != nil {
+			add.addComp(g.compElem(et))
+		}
+		return
+	}
+	if _, isS := types.Unalias(t).Underlying().(*types.Struct); isS {
+		keys := map[string]bool{}
+		g.allFieldComps(t, keys)
+		r := rootOf(addr)
+		for k := range keys {
+			switch {
+			case r >= 0:
+				add.addPrm(k, r)
+			case r == rootFresh && !forLoop:
+			default:
+				add.addComp(k)
+			}
+		}
+		return
+	}
+	add.addComp(g.compCell(t))
+}
+
 // instrMods adds the components written by one instruction to ms; reports change.
 func (g *Gen) instrMods(fn *ssa.Function, ins ssa.Instruction, ms *ModSet) bool {
+	return g.instrModsX(fn, ins, ms, false)
+}
+
+func (g *Gen) instrModsX(fn *ssa.Function, ins ssa.Instruction, ms *ModSet, forLoop bool) bool {
 	add := newModSet()
 	switch ins := ins.(type) {
 	case *ssa.Store:
-		g.compsOfStoreTarget(ins.Addr, ins.Val.Type(), add.comps)
+		g.storeEffects(ins.Addr, ins.Val.Type(), add, forLoop)
 	case *ssa.MapUpdate:
 		mt := ins.Map.Type().Underlying().(*types.Map)
 		add.comps[g.compMapVal(mt)] = true
 		add.comps[g.compMapDom(mt)] = true
 	case ssa.CallInstruction:
 		g.callMods(ins.Common(), add)
-		if _, isGo := ins.(*ssa.Go); isGo {
-			// a forked body runs concurrently; its writes are accounted to the spawner as well
-		}
 	}
 	return ms.union(add)
+}
+
+// bindCallee maps a callee's parameter-rooted effects through the actual arguments.
+func bindCallee(cm *ModSet, args []ssa.Value, add *ModSet) {
+	if cm.all {
+		add.all = true
+	}
+	if cm.external {
+		add.external = true
+	}
+	for k := range cm.comps {
+		add.addComp(k)
+	}
+	for k, is := range cm.prm {
+		for i := range is {
+			if i >= len(args) {
+				add.addComp(k)
+				continue
+			}
+			switch r := rootOf(args[i]); {
+			case r >= 0:
+				add.addPrm(k, r)
+			case r == rootFresh:
+				// the callee writes an object allocated by the caller's activation: visible to the caller's loops only; handled by flat()
+				add.fresh(k)
+			default:
+				add.addComp(k)
+			}
+		}
+	}
 }
 
 func (g *Gen) callMods(cc *ssa.CallCommon, add *ModSet) {
@@ -365,7 +543,7 @@ func (g *Gen) callMods(cc *ssa.CallCommon, add *ModSet) {
 		return
 	case *ssa.Function:
 		if ms, ok := g.modsets[v]; ok {
-			add.union(ms)
+			bindCallee(ms, cc.Args, add)
 			return
 		}
 		if lm := g.libModSet(v, cc); lm != nil {
@@ -380,7 +558,7 @@ func (g *Gen) callMods(cc *ssa.CallCommon, add *ModSet) {
 		return
 	case *ssa.MakeClosure:
 		if ms, ok := g.modsets[v.Fn.(*ssa.Function)]; ok {
-			add.union(ms)
+			bindCallee(ms, cc.Args, add)
 			return
 		}
 	}
@@ -391,7 +569,7 @@ func (g *Gen) callMods(cc *ssa.CallCommon, add *ModSet) {
 func (g *Gen) dynMods(v ssa.Value, add *ModSet) {
 	if mc, ok := v.(*ssa.MakeClosure); ok {
 		if ms, ok := g.modsets[mc.Fn.(*ssa.Function)]; ok {
-			add.union(ms)
+			add.union(ms.flat())
 			return
 		}
 	}
@@ -402,7 +580,7 @@ func (g *Gen) dynMods(v ssa.Value, add *ModSet) {
 	}
 	for _, t := range g.dynTargets[sigKey(sig)] {
 		if ms, ok := g.modsets[t]; ok {
-			add.union(ms)
+			add.union(ms.flat())
 		}
 	}
 	// and any function supplied from outside the module
